@@ -2,6 +2,9 @@ import Model
 import Proofs.Order
 import Proofs.Walk
 import Proofs.Visits
+import Proofs.EarliestFit
+import Proofs.EffortGlobal
+import Proofs.WFCheck
 /-!
 C07 — ASAP schedules equal the priority-ordered earliest-fit schedule.
 
@@ -87,5 +90,44 @@ theorem task_takes_earliest_slots (e : Env) (wf : WF e) (σ : St) (t r : Nat)
   · exact scheduleTask_no_idle e wf σ t r hinv hel hb hf hnd hclean hok
   · exact scheduleTask_exact e wf σ t r hinv hel.leaf hel.alloc hel.nomile hel.effort hel.sel hnd hclean hok
   · exact scheduleTask_start_ge e wf σ t hb hf hnp hel.alloc hel.nomile hel.effort hnd hok
+
+/-! ### whole projects: a list schedule -/
+
+/-- **C07, the earliest-fit clause, for whole projects** (`Proofs/EarliestFit`): after scheduling ANY well-formed project there
+    is a linear order of the tasks — the order in which the loop placed them, latest first — such that every forward effort
+    task `t` reported as scheduled, without a start of its own, whose single selected resource `r` is an unlimited leaf, occurs
+    in it (`order = post ++ t :: pre`, `pre` being the tasks placed before `t`), and between the slot of `t`'s dependency bound
+    (from the FINAL dates of its predecessors) and any slot in which `t` is booked, every slot in which `r` is on shift and
+    not on leave carries `t` itself or a task placed BEFORE `t`.  So `t` took the earliest slots at or after its bound that
+    the tasks placed before it had left — no such slot is empty, and none went to a task placed later: the schedule is the
+    list schedule of that order.  (Which order it is — priority, ties in declaration order, first ready — is the step-level
+    `order_by_priority`, `next_is_first_ready`, and for the lowest priority the two-run theorem of C09.) -/
+theorem earliest_fit_in_placement_order (e : Env) (wf : WF e) (tr : Tree e) :
+    ∃ order : List Nat, ∀ t r, EligU e t r → ((runScenario e).tst t).scheduled = true → ((runScenario e).tst t).forward = true →
+      ∃ post pre, order = post ++ t :: pre ∧
+        ∀ L, usageOf ((runScenario e).led.get r L).usage t ≠ none →
+          ∀ i, boundSlot e (runScenario e) t ≤ i → i ≤ L → e.onShift r i = true → e.leaveMark r i = false →
+            usageOf ((runScenario e).led.get r i).usage t ≠ none ∨
+            ∃ t' ∈ pre, usageOf ((runScenario e).led.get r i).usage t' ≠ none := by
+  obtain ⟨order, h⟩ := runScenario_doneFit e wf tr
+  exact ⟨order, fun t r hel hs hf =>
+    h t r hel (runScenario_scheduled_done e t ⟨hel.el.leaf, hel.el.effort, hel.el.nomile⟩ hs) hf⟩
+
+/-- the same for the environment elaborated from a project description, under the decidable checks -/
+theorem earliest_fit_in_placement_order_elab (p : RawProj) (h : wfCheck (elaborate p).env = true)
+    (htr : treeCheck (elaborate p).env = true) :
+    ∃ order : List Nat, ∀ t r, EligU (elaborate p).env t r →
+      ((runScenario (elaborate p).env).tst t).scheduled = true → ((runScenario (elaborate p).env).tst t).forward = true →
+      ∃ post pre, order = post ++ t :: pre ∧ FitAt (elaborate p).env (runScenario (elaborate p).env) t r pre := by
+  obtain ⟨order, h1⟩ := runScenario_doneFit _ (wfCheck_sound _ h) (treeCheck_sound _ htr)
+  exact ⟨order, fun t r hel hs hf =>
+    h1 t r hel (runScenario_scheduled_done _ t ⟨hel.el.leaf, hel.el.effort, hel.el.nomile⟩ hs) hf⟩
+
+/-- every entry of the final ledger belongs to a task the loop placed (ghost order of `earliest_fit_in_placement_order`): at the
+    level of one round, the ledger after scheduling `t0` holds entries of `t0` and of the tasks it held before, nothing else -/
+theorem round_adds_only_own_entries (e : Env) (wf : WF e) (σ : St) (t0 : Nat) (S : List Nat) (hinv : Inv e σ)
+    (hlf : (e.taskD t0).leaf = true) (h : Owned S σ) : Owned (t0 :: S) (scheduleTask e σ t0).1 :=
+  closed_scheduleTask (owned_closed e (t0 :: S)) wf σ t0 hinv hlf List.mem_cons_self
+    (h.mono (fun x hx => List.mem_cons_of_mem _ hx))
 
 end SP.C07
